@@ -1,16 +1,269 @@
-import Operon.Model.Ribosome
-namespace Operon.Ribosome
+import Operon.Lemmas.C12
+/-!
+# C12 — template rendering follows the documented grammar; bound values stay data
+
+Property theorems only.  Three layers (see `Operon/Model/Ribosome.lean`, `Operon/Model/Tmpl.lean`):
+
+* string layer `Ribosome.translate` — mirrors the four regex passes of `operon_ai/organelles/ribosome.py`; this is
+  what the differential correspondence of `harness/vf/props/c12.py` runs against the real code;
+* token layer `renderTok` — the same passes as token-list transformers that re-lex whatever they splice in;
+* specification `specToks` / `renderSpec` — ONE left-to-right expansion of a grammar template (`Tmpl`), values spliced
+  as inert `Tok.val` pieces.
+
+The driver runs all three layers on every generated case and reports any difference between them.
+
+All statements quantify over every environment `cfg` (character classes, filter table and filter results, marker
+text), every registry of templates, every context, every include depth `fuel` (so no acyclicity assumption is needed:
+both sides run out of fuel together) and every grammar template.  "No `{`" is all the token level needs of a value; the
+exclusion of `}` in the property's first quantifier belongs to the string layer (a value `{` next to template text
+`{a}}`), see `notes/C12.md`.
+-/
+namespace Operon.Tmpl
+open Operon.Ribosome
+
+/-! ## Clause 1 — rendering is one left-to-right expansion (delimiter-free values) -/
+
+/-- CORE.  For every grammar template (non-nested blocks, any includes, any depth) and every context whose values,
+    loop items, dict fields, filter results and marker contain no `{` (hypothesis `BF`): the implementation's four
+    passes, run on the template's tokens, produce exactly the text of ONE left-to-right expansion — or both produce
+    no text (a filter raised, or the include depth ran out).  Non-strict mode. -/
+theorem c12_tok_eq_spec_brace_free_values (cfg : Cfg) (reg : SReg) (ctx : Ctx) (hbf : BF cfg ctx)
+    (hreg : GrammarReg reg) (fuel : Nat) (t : Tmpl) (ht : Grammar t) :
+    (renderTok cfg false (tokReg reg) ctx fuel (flatten t)).toOption.map (fun r => printToks r.1)
+      = (renderSpec cfg false reg ctx fuel t).toOption := by
+  have h := tok_eq_spec_aux cfg reg ctx hbf hreg.split fuel t ht.1 ht.2
+  unfold renderSpec
+  cases hs : specToks cfg reg ctx fuel t with
+  | error e =>
+    rw [hs] at h
+    cases hr : renderTok cfg false (tokReg reg) ctx fuel (flatten t) with
+    | error e' => rfl
+    | ok r => rw [hr] at h; simp [Except.toOption] at h
+  | ok out =>
+    rw [hs] at h
+    cases hr : renderTok cfg false (tokReg reg) ctx fuel (flatten t) with
+    | error e' => rw [hr] at h; simp [Except.toOption] at h
+    | ok r =>
+      rw [hr] at h
+      simp only [Except.toOption, Option.map, Option.some.injEq] at h
+      simp [Except.toOption, h]
+
+/-- Strict mode: whenever the strict render returns text at all, it is the text of the one left-to-right expansion
+    (strict mode only ever adds an error, see `c12_missing_reported`). -/
+theorem c12_tok_strict_refines_spec (cfg : Cfg) (reg : SReg) (ctx : Ctx) (hbf : BF cfg ctx)
+    (hreg : GrammarReg reg) (fuel : Nat) (t : Tmpl) (ht : Grammar t) (out : List Tok) (w : List Str)
+    (h : renderTok cfg true (tokReg reg) ctx fuel (flatten t) = .ok (out, w)) :
+    renderSpec cfg false reg ctx fuel t = .ok (printToks out) := by
+  have h0 := renderTok_strict_ok cfg (tokReg reg) ctx fuel (flatten t) _ h
+  have h1 := tok_eq_spec_aux cfg reg ctx hbf hreg.split fuel t ht.1 ht.2
+  rw [h0] at h1
+  unfold renderSpec
+  cases hs : specToks cfg reg ctx fuel t with
+  | error e => rw [hs] at h1; simp [Except.toOption] at h1
+  | ok o =>
+    rw [hs] at h1
+    simp only [Except.toOption, Option.map, Option.some.injEq] at h1
+    simp [h1]
+
+/-! ## Missing variables are reported -/
+
+/-- CORE.  (a) strict mode: an unbound `{{name}}` anywhere in the template makes the render fail with the
+    missing-variable error; (b) non-strict mode, any values whatsoever: every unbound `{{name}}` of the template is
+    among the warnings; (c) non-strict mode, delimiter-free values: every variable the one left-to-right expansion
+    found unbound — through includes too — is among the warnings. -/
+theorem c12_missing_reported (cfg : Cfg) (reg : SReg) (ctx : Ctx) (fuel : Nat) (t : Tmpl) :
+    (∀ n, Tok.var n ∈ flatten t → isBound ctx n = false →
+        renderTok cfg true (tokReg reg) ctx (fuel + 1) (flatten t) = .error .value) ∧
+    (∀ out w, renderTok cfg false (tokReg reg) ctx (fuel + 1) (flatten t) = .ok (out, w) →
+        ∀ n, Tok.var n ∈ flatten t → isBound ctx n = false → n ∈ w) ∧
+    (BF cfg ctx → GrammarReg reg → Grammar t →
+      ∀ out w, renderTok cfg false (tokReg reg) ctx (fuel + 1) (flatten t) = .ok (out, w) →
+        ∃ sout, specToks cfg reg ctx (fuel + 1) t = .ok sout ∧ ∀ n ∈ specMissing sout, n ∈ w) := by
+  refine ⟨?_, ?_, ?_⟩
+  · intro n hn hb
+    exact renderTok_strict_missing cfg _ ctx fuel _ n hn hb
+  · intro out w h n hn hb
+    exact renderTok_warns_static cfg _ ctx fuel _ out w h n hn hb
+  · intro hbf hreg ht out w h
+    have h1 := tok_eq_spec_aux cfg reg ctx hbf hreg.split (fuel + 1) t ht.1 ht.2
+    rw [h] at h1
+    cases hs : specToks cfg reg ctx (fuel + 1) t with
+    | error e => rw [hs] at h1; simp [Except.toOption] at h1
+    | ok sout =>
+      rw [hs] at h1
+      simp only [Except.toOption, Option.map, Option.some.injEq] at h1
+      subst h1
+      refine ⟨_, rfl, ?_⟩
+      intro n hn
+      exact renderTok_warns_dynamic cfg _ ctx hbf.text fuel _ _ w h n (mem_varNames.mp hn)
+
+/-! ## Unknown includes -/
+
+/-- CORE.  `{{>name}}` for a name that is not registered renders as the explicit marker that names it
+    (`markerPre ++ name ++ markerSuf`, on the pinned tree `[Unknown template: name]`), in both modes, with no warning;
+    the specification says the same. -/
+theorem c12_unknown_include_marker (cfg : Cfg) (strict : Bool) (reg : SReg) (ctx : Ctx) (fuel : Nat) (n : Str)
+    (hn : lookup n reg = none) (hm : NoLB (cfg.markerPre ++ n ++ cfg.markerSuf)) :
+    renderTok cfg strict (tokReg reg) ctx (fuel + 1) (flatten [.tok (.inc n)])
+        = .ok (textTok (cfg.markerPre ++ n ++ cfg.markerSuf), []) ∧
+    specToks cfg reg ctx (fuel + 1) [.tok (.inc n)] = .ok (textTok (cfg.markerPre ++ n ++ cfg.markerSuf)) := by
+  constructor
+  · have : lookup n (tokReg reg) = none := by rw [lookup_tokReg, hn]; rfl
+    exact renderTok_unknown_include cfg strict _ ctx fuel n this hm
+  · simp [specToks, flatMapM, specSeg, specTok, hn, markerSpec]
+
+/-! ## Clause 2 — bound values stay data -/
+
+/-- CORE (specification).  Non-interference: two contexts that agree on which names are bound, on truthiness, on
+    list-ness, numbers of items and dict keys — and two filter tables that agree on which applications succeed — but
+    differ ARBITRARILY in what the values, items, fields and filter results say, yield outputs with the same shape:
+    the same template text, the same residual constructs and the same positions of spliced-in pieces.  What a value
+    says never decides what is expanded. -/
+theorem c12_spec_values_opaque (cfg cfg' : Cfg) (hE : EnvSim cfg cfg') (ctx ctx' : Ctx) (hC : CtxSim ctx ctx')
+    (reg : SReg) (fuel : Nat) (t : Tmpl) :
+    (specToks cfg reg ctx fuel t).toOption.map shapeL = (specToks cfg' reg ctx' fuel t).toOption.map shapeL :=
+  specToks_sim cfg cfg' hE ctx ctx' hC reg fuel t
+
+/-- PARTIAL (implementation, token layer).  Outside the trigger of the known finding — i.e. when neither context
+    holds a `{` in any value, item, field or filter result — the implementation's passes have the same
+    non-interference property.
+    Missing for the full statement: it is false, see the witness below. -/
+theorem c12_impl_values_opaque_partial (cfg cfg' : Cfg) (hE : EnvSim cfg cfg') (ctx ctx' : Ctx) (hC : CtxSim ctx ctx')
+    (hbf : BF cfg ctx) (hbf' : BF cfg' ctx') (reg : SReg) (hreg : GrammarReg reg) (fuel : Nat) (t : Tmpl)
+    (ht : Grammar t) :
+    (renderTok cfg false (tokReg reg) ctx fuel (flatten t)).toOption.map (fun r => shapeL r.1)
+      = (renderTok cfg' false (tokReg reg) ctx' fuel (flatten t)).toOption.map (fun r => shapeL r.1) := by
+  have h1 := tok_eq_spec_aux cfg reg ctx hbf hreg.split fuel t ht.1 ht.2
+  have h2 := tok_eq_spec_aux cfg' reg ctx' hbf' hreg.split fuel t ht.1 ht.2
+  have h3 := specToks_sim cfg cfg' hE ctx ctx' hC reg fuel t
+  rw [← h1, ← h2] at h3
+  simp only [Option.map_map] at h3
+  exact h3
+
+-- FULL (false on the pinned tree): `c12_impl_values_opaque_partial` without `hbf hbf'`, and
+-- `c12_tok_eq_spec_brace_free_values` without `hbf` — "text that enters the output through a bound value, loop item or
+-- default is emitted verbatim and is never itself re-interpreted as template syntax".
+
+/-! ### the witness: a loop item that is re-interpreted -/
 
 def wCfg : Cfg :=
   { isWord := asciiWord, isSpace := asciiSpace, filters := [], applyF := fun _ _ => .raise [],
-    templates := [], strict := false, markerPre := [], markerSuf := [] }
+    templates := [], strict := false, markerPre := [91, 63], markerSuf := [93] }
 
--- `{{#each xs}}[{{item}}]{{/each}}`
-def wTmpl : Str := EACHH ++ [32, 120, 115] ++ RR ++ [91] ++ tagOf kItem ++ [93] ++ ENDEACH
+/-- `{{#each xs}}[{{item}}]{{/each}}` as text -/
+def wStr : Str := EACHH ++ [32, 120, 115] ++ RR ++ [91] ++ tagOf kItem ++ [93] ++ ENDEACH
+
+/-- … and as a grammar template -/
+def wTmpl : Tmpl := [.each [32] [120, 115] [.text [91], .var kItem, .text [93]]]
+
+/-- `xs = ["{{s}}", "{{index}}"]`, `s = "S"` -/
 def wCtx : Ctx :=
   [([120, 115], ⟨[], true, some [⟨tagOf [115], []⟩, ⟨tagOf kIndex, []⟩]⟩), ([115], ⟨[83], true, none⟩)]
 
-theorem c12_value_reinterpreted_witness :
-    (translate wCfg wCtx 5 wTmpl).toOption.map (·.1) = some [91, 83, 93, 91, 49, 93] := by decide
+/-- the same context with harmless items `xs = ["ab", "cd"]`, and with `xs = ["{{zz}}", "cd"]` -/
+def wCtx0 : Ctx :=
+  [([120, 115], ⟨[], true, some [⟨[97, 98], []⟩, ⟨[99, 100], []⟩]⟩), ([115], ⟨[83], true, none⟩)]
+def wCtx1 : Ctx :=
+  [([120, 115], ⟨[], true, some [⟨tagOf [122, 122], []⟩, ⟨[99, 100], []⟩]⟩), ([115], ⟨[83], true, none⟩)]
 
-end Operon.Ribosome
+/-- WITNESS (string layer = the code, and token layer).  The template `{{#each xs}}[{{item}}]{{/each}}` with the
+    items `{{s}}` and `{{index}}` — values that contain `{` (the trigger) — renders as `[S][1]`: the first item pulled
+    in the variable `s`, the second the loop index.  The one left-to-right expansion gives `[{{s}}][{{index}}]`.  So
+    the implementation is NOT the expansion; and its output shape depends on what the items say: with the item
+    `{{zz}}` (`wCtx1`) a residual construct appears where `wCtx0` has a spliced-in piece. -/
+theorem c12_value_reinterpreted_witness :
+    printToks (flatten wTmpl) = wStr ∧ lex wCfg wStr = flatten wTmpl ∧
+    (∃ p ∈ wCtx, ∃ its, p.2.items = some its ∧ ∃ it ∈ its, 123 ∈ it.text) ∧
+    (translate wCfg wCtx 5 wStr).toOption.map (·.1) = some [91, 83, 93, 91, 49, 93] ∧
+    (renderTok wCfg false [] wCtx 5 (flatten wTmpl)).toOption.map (fun r => printToks r.1)
+      = some [91, 83, 93, 91, 49, 93] ∧
+    (renderSpec wCfg false [] wCtx 5 wTmpl).toOption
+      = some ([91] ++ tagOf [115] ++ [93] ++ [91] ++ tagOf kIndex ++ [93]) ∧
+    CtxSim wCtx1 wCtx0 ∧
+    (renderTok wCfg false [] wCtx1 5 (flatten wTmpl)).toOption.map (fun r => shapeL r.1)
+      ≠ (renderTok wCfg false [] wCtx0 5 (flatten wTmpl)).toOption.map (fun r => shapeL r.1) := by
+  refine ⟨by decide, by decide, ?_, by decide, by decide, by decide, ?_, by decide⟩
+  · exact ⟨_, List.mem_cons_self, _, rfl, _, List.mem_cons_self, by decide⟩
+  · exact .cons ⟨rfl, rfl, rfl, .cons rfl (.cons rfl .nil)⟩ (.cons ⟨rfl, rfl, rfl, .nil⟩ .nil)
+
+-- STRETCH, NOT PROVED: `c12_str_eq_tok_brace_free` —
+--   ∀ cfg ctx fuel (t : Tmpl), Grammar t → text pieces, defaults, values free of `{` and `}` →
+--     (translate cfg ctx fuel (printToks (flatten t))).map (·.1) = (renderTok … (flatten t)).map (printToks ·.1)
+-- i.e. the regex scanners of the string layer find exactly the tokens of the token layer.  What is missing is the
+-- scanner-level argument (`lex (printToks ts) = ts` for grammar token lists and its analogue for each of the nine
+-- scanners).  The equality is instead CHECKED on every generated case: the driver runs both layers and turns a
+-- difference in the brace-free regime into a `LAYER-DIFF` observation, which fails the correspondence.
+
+/-! ## Non-vacuity: the hypotheses are satisfiable by non-trivial data -/
+
+/-- an environment with one filter `up` that answers `U`, marker `[?name]` -/
+def eCfg : Cfg :=
+  { isWord := asciiWord, isSpace := asciiSpace, filters := [[117, 112]], applyF := fun _ _ => .ok [85],
+    templates := [], strict := false, markerPre := [91, 63], markerSuf := [93] }
+
+/-- `a = "x"`, `f` falsy, `xs = ["p", {"k": "v"}]` -/
+def eCtx : Ctx :=
+  [([97], ⟨[120], true, none⟩), ([102], ⟨[], false, none⟩),
+   ([120, 115], ⟨[108], true, some [⟨[112], []⟩, ⟨[113], [([107], [118])]⟩]⟩)]
+
+/-- same shape, different words -/
+def eCtx' : Ctx :=
+  [([97], ⟨[121, 121], true, none⟩), ([102], ⟨[48], false, none⟩),
+   ([120, 115], ⟨[], true, some [⟨[], []⟩, ⟨[114, 114], [([107], [119])]⟩]⟩)]
+
+/-- `t0` = `<{{a}}{{zz}}>`; top = `{{#if f}}no{{#else}}{{a|up}}{{/if}}{{#each xs}}{{item}}{{k}}{{index}};{{/each}}{{>t0}}{{>nope}}{{b|dflt}}` -/
+def eReg : SReg := [([116, 48], [.tok (.text [60]), .tok (.var [97]), .tok (.var [122, 122]), .tok (.text [62])])]
+def eTmpl : Tmpl :=
+  [.ifB [32] [102] [.text [110, 111]] (some [.pipe [97] [117, 112]]),
+   .each [32] [120, 115] [.var kItem, .var [107], .var kIndex, .text [59]],
+   .tok (.inc [116, 48]), .tok (.inc [110, 111, 112, 101]), .tok (.pipe [98] [100, 102, 108, 116])]
+
+def eBF : BF eCfg eCtx :=
+  BF_of_ok eCfg eCtx (by decide) (by intro f n r h; cases h; exact NoLB_of_bool (by decide))
+    (NoLB_of_bool (by decide)) (NoLB_of_bool (by decide))
+
+def eGrammar : Grammar eTmpl ∧ GrammarReg eReg := by
+  refine ⟨⟨by decide, ?_⟩, ?_⟩
+  · intro s hs
+    simp only [eTmpl, List.mem_cons, List.not_mem_nil, or_false] at hs
+    rcases hs with rfl | rfl | rfl | rfl | rfl <;> simp [Seg.clean, Tok.clean, NoLB]
+  · intro n b h
+    simp only [eReg, lookup] at h
+    split at h
+    · cases h
+      refine ⟨by decide, ?_⟩
+      intro s hs
+      simp only [List.mem_cons, List.not_mem_nil, or_false] at hs
+      rcases hs with rfl | rfl | rfl | rfl <;> simp [Seg.clean, Tok.clean]
+    · cases h
+
+/-- the hypotheses of `c12_tok_eq_spec_brace_free_values` hold for a template with every kind of construct, and both
+    sides compute `U` `p{{k}}0;` `qv1;` `<x{{zz}}>` `[?nope]` `dflt`, warning about item, k, index (unbound names of
+    the template), k and zz (left in the output) -/
+example : BF eCfg eCtx ∧ Grammar eTmpl ∧ GrammarReg eReg ∧
+    (renderSpec eCfg false eReg eCtx 3 eTmpl).toOption =
+      some ([85] ++ [112] ++ tagOf [107] ++ [48, 59] ++ [113, 118, 49, 59] ++ [60, 120] ++ tagOf [122, 122] ++ [62]
+        ++ [91, 63, 110, 111, 112, 101, 93] ++ [100, 102, 108, 116]) ∧
+    (renderTok eCfg false (tokReg eReg) eCtx 3 (flatten eTmpl)).toOption.map (·.2)
+      = some [kItem, [107], kIndex, [107], [122, 122]] :=
+  ⟨eBF, eGrammar.1, eGrammar.2, by decide, by decide⟩
+
+/-- strict mode over the same data fails (the loop variables `item`, `k`, `index` are unbound names of the template):
+    hypotheses of `c12_missing_reported` (a) -/
+example : Tok.var kItem ∈ flatten eTmpl ∧ isBound eCtx kItem = false := by decide
+
+/-- two contexts of the same shape and different content: hypotheses of `c12_spec_values_opaque` -/
+example : CtxSim eCtx eCtx' ∧ EnvSim eCfg { eCfg with applyF := fun _ _ => .ok [123, 123, 97, 125, 125] } := by
+  refine ⟨?_, ⟨rfl, rfl, rfl, rfl, fun _ _ => rfl⟩⟩
+  refine .cons ⟨rfl, rfl, rfl, .nil⟩ (.cons ⟨rfl, rfl, rfl, .nil⟩ (.cons ⟨rfl, rfl, rfl, ?_⟩ .nil))
+  exact .cons rfl (.cons rfl .nil)
+
+/-- an unregistered include name with a brace-free marker: hypotheses of `c12_unknown_include_marker` -/
+example : lookup [110, 111, 112, 101] eReg = none ∧ noLBb (eCfg.markerPre ++ [110, 111, 112, 101] ++ eCfg.markerSuf) = true := by
+  decide
+
+/-- string layer, same data, concrete check (a test, not a theorem): `{{>nope}}` renders as the marker -/
+example : (translate eCfg eCtx 3 (INCH ++ [110, 111, 112, 101] ++ RR)).toOption.map (·.1)
+    = some [91, 63, 110, 111, 112, 101, 93] := by decide
+
+end Operon.Tmpl
